@@ -18,6 +18,9 @@ import (
 type blob struct {
 	body []byte
 	enc  string
+	// cuts: the next len(cuts) downloads break off after the headers and
+	// cuts[i] per-mille of the body (the declared length is the full one)
+	cuts []int
 }
 
 type blobOrigin struct {
@@ -40,7 +43,28 @@ func theBlobOrigin() *blobOrigin {
 			o.mu.Lock()
 			b, ok := o.blobs[r.URL.Path]
 			o.hits[r.URL.Path]++
+			cut := -1
+			if ok && len(b.cuts) > 0 {
+				cut = b.cuts[0]
+				b.cuts = b.cuts[1:]
+				o.blobs[r.URL.Path] = b
+			}
 			o.mu.Unlock()
+			if cut >= 0 {
+				if hj, can := w.(http.Hijacker); can {
+					if conn, bw, err := hj.Hijack(); err == nil {
+						fmt.Fprintf(bw, "HTTP/1.1 200 OK\r\nContent-Type: application/vnd.apache.arrow.stream\r\nContent-Length: %d\r\n", len(b.body))
+						if b.enc != "" {
+							fmt.Fprintf(bw, "Content-Encoding: %s\r\n", b.enc)
+						}
+						fmt.Fprintf(bw, "Connection: close\r\n\r\n")
+						bw.Write(b.body[:len(b.body)*cut/1000])
+						bw.Flush()
+						conn.Close()
+						return
+					}
+				}
+			}
 			if !ok {
 				http.Error(w, "no such object", http.StatusNotFound)
 				return
@@ -69,6 +93,15 @@ func (o *blobOrigin) replace(path string, body []byte) {
 	o.mu.Lock()
 	b := o.blobs[path]
 	b.body = body
+	o.blobs[path] = b
+	o.mu.Unlock()
+}
+
+// interrupt makes the next downloads of path break off mid-body.
+func (o *blobOrigin) interrupt(path string, cuts []int) {
+	o.mu.Lock()
+	b := o.blobs[path]
+	b.cuts = append([]int{}, cuts...)
 	o.blobs[path] = b
 	o.mu.Unlock()
 }
